@@ -221,12 +221,16 @@ Section Sync.
           if ex then inr s
           else
             let s1 := if inc then mb_del_node s owner inner else s in
-            if negb (beq parent zero32) then
-              match bump_deps s1 parent_path 1 with
-              | None => inl s1                                   (* panic: sub-trie ancestor not found *)
-              | Some s2 => inr (schedule_node s2 path (mkNreq root None (Some parent_path) 0 cb))
-              end
-            else inr (schedule_node s1 path (mkNreq root None None 0 cb))
+            match aget path (nreqs s1) with
+            | Some _ => inl s1     (* MODEL LIMIT: a live request already has this path (see below) *)
+            | None =>
+                if negb (beq parent zero32) then
+                  match bump_deps s1 parent_path 1 with
+                  | None => inl s1                               (* panic: sub-trie ancestor not found *)
+                  | Some s2 => inr (schedule_node s2 path (mkNreq root None (Some parent_path) 0 cb))
+                  end
+                else inr (schedule_node s1 path (mkNreq root None None 0 cb))
+            end
       end.
 
   (* Sync.AddCodeEntry *)
@@ -433,10 +437,21 @@ Section Sync.
         end
     end.
 
-  Fixpoint schedule_all (s : sync) (reqs : list (list N * nreq)) : sync :=
+  (* MODEL LIMIT.  Go's scheduleNodeRequest overwrites nodeReqs[path] silently, and the
+     children of the overwritten request keep their POINTER to it.  With requests
+     identified by their path this cannot be represented, so the model stops with
+     [RInternal] / the panic class when a path that is already pending is scheduled
+     again.  This is exactly the account-leaf-node / storage-root clash at depth 64
+     acknowledged in trie.NewSyncPath; it cannot happen for a target that is a tree
+     of paths (every path has one parent). *)
+  Fixpoint schedule_all (s : sync) (reqs : list (list N * nreq)) : option sync :=
     match reqs with
-    | [] => s
-    | (p, r) :: rest => schedule_all (schedule_node s p r) rest
+    | [] => Some s
+    | (p, r) :: rest =>
+        match aget p (nreqs s) with
+        | Some _ => None
+        | None => schedule_all (schedule_node s p r) rest
+        end
     end.
 
   (* Sync.ProcessNode *)
@@ -461,7 +476,10 @@ Section Sync.
                         else
                           let r3 := mkNreq (nr_hash r2) (nr_data r2) (nr_parent r2)
                                            (nr_deps r2 + Z.of_nat (length reqs)) (nr_cb r2) in
-                          (schedule_all (set_nreqs s2 (aput path r3 (nreqs s2))) (rev reqs), ROk)
+                          match schedule_all (set_nreqs s2 (aput path r3 (nreqs s2))) (rev reqs) with
+                          | Some s3 => (s3, ROk)
+                          | None => (s2, RInternal)
+                          end
                     end
                 | (s2, _, e) => (s2, e)
                 end
